@@ -226,6 +226,75 @@ static void op_deepcopy_crystal(uint32_t j, rec_t *r, xrl_error **e) {
     for (int q = 0; q < 3; q++) Crystal_Free(c[PERM3[perm][q]]);
 }
 
+/* ---- C04: crystal file contents: write the text to a temp file, read it into a fresh array, list, look up, release */
+#include <unistd.h>
+static void op_readfile_content(uint32_t j, rec_t *r, xrl_error **e) {
+    static char path[256]; int off = trk_on; trk_on = 0;
+    if (!path[0]) snprintf(path, sizeof path, "%s/xdrv_cryst_%d.dat", getenv("TMPDIR") ? getenv("TMPDIR") : "/tmp", (int)getpid());
+    FILE *f = fopen(path, "w"); const char *txt = S(0); if (txt) fputs(txt, f); fclose(f);
+    trk_on = off;
+    Crystal_Array *a = Crystal_ArrayInit(I(1), NULL);
+    if (!a) { r->flags |= F_AUX; return; }
+    int rv = Crystal_ReadFile(path, a, e);
+    r->v[0] = rv; r->v[1] = a->n_crystal;
+    int n = 0; char **l = Crystal_GetCrystalsList(a, &n, NULL);
+    for (int i = 0; l && l[i]; i++) { Crystal_Struct *c = Crystal_GetCrystal(l[i], a, NULL); if (c) { volatile double v = Crystal_UnitCellVolume(c, NULL); (void)v; Crystal_Free(c); } xrlFree(l[i]); }
+    xrlFree(l);
+    Crystal_ArrayFree(a);
+    trk_on = 0; if (I(2)) unlink(path); trk_on = off;
+}
+/* ---- C04: allocation histories.  program = space separated tokens, executed in order on handle slots; at the end everything still live is
+ *      released in the order selected by 'perm' and the live-block count must be back where it started */
+typedef struct { int kind; void *p; } hnd_t;   /* 1 compoundData 2 NIST 3 radio 4 crystal 5 string list */
+static const char *HF[] = { "H2O", "Ca5(PO4)3F", "(H2O)2", "Uu", "H2O)", "", NULL, "Rf" };
+static const char *HN[] = { "Water, Liquid", "water", NULL, "Kapton Polyimide Film" };
+static const char *HR[] = { "55Fe", "55fe", NULL, "241Am" };
+static const char *HC[] = { "Si", "si", NULL, "LiF" };
+static void hfree(hnd_t *h) {
+    switch (h->kind) { case 1: FreeCompoundData(h->p); break; case 2: FreeCompoundDataNIST(h->p); break; case 3: FreeRadioNuclideData(h->p); break;
+    case 4: Crystal_Free(h->p); break; case 5: { char **l = h->p; for (int i = 0; l[i]; i++) xrlFree(l[i]); xrlFree(l); } break; }
+    h->kind = 0; h->p = NULL;
+}
+static void op_hist(uint32_t j, rec_t *r, xrl_error **e) {
+    (void)e; hnd_t h[8]; int nh = 0; xrl_error *slot[2] = { NULL, NULL };
+    char prog[512]; const char *src = S(0); int perm = I(1);
+    int off = trk_on; trk_on = 0; snprintf(prog, sizeof prog, "%s", src ? src : ""); trk_on = off;
+    int steps = 0, fails = 0;
+    for (char *save, *t = strtok_r(prog, " ", &save); t; t = strtok_r(NULL, " ", &save)) {
+        int k = t[1] ? atoi(t + 1) : 0; void *p = NULL; int kind = 0; xrl_error *le = NULL;
+        steps++;
+        switch (t[0]) {
+        case 'P': p = CompoundParser(HF[k & 7], &le); kind = 1; break;
+        case 'N': p = GetCompoundDataNISTByName(HN[k & 3], &le); kind = 2; break;
+        case 'n': p = GetCompoundDataNISTByIndex(k == 9 ? -1 : k == 8 ? 180 : k, &le); kind = 2; break;
+        case 'R': p = GetRadioNuclideDataByName(HR[k & 3], &le); kind = 3; break;
+        case 'r': p = GetRadioNuclideDataByIndex(k == 9 ? -1 : k == 8 ? 10 : k, &le); kind = 3; break;
+        case 'G': p = Crystal_GetCrystal(HC[k & 3], NULL, &le); kind = 4; break;
+        case 'L': { int n; p = k == 0 ? GetCompoundDataNISTList(&n, &le) : k == 1 ? GetRadioNuclideDataList(&n, &le) : Crystal_GetCrystalsList(NULL, &n, &le); kind = 5; } break;
+        case 'K': { hnd_t *c = NULL; for (int i = nh - 1; i >= 0; i--) if (h[i].kind == 4) { c = &h[i]; break; } p = Crystal_MakeCopy(c ? c->p : NULL, &le); kind = 4; } break;
+        case 'C': { hnd_t *a = NULL, *b = NULL; for (int i = nh - 1; i >= 0; i--) if (h[i].kind == 1) { if (!a) a = &h[i]; else { b = &h[i]; break; } }
+                    if (a && b) { p = add_compound_data(*(struct compoundData *)a->p, 0.3, *(struct compoundData *)b->p, 0.7); kind = 1; } } break;
+        case 'U': { double v = k == 0 ? CS_Total_CP("H2O", 10.0, &le) : k == 1 ? CS_Total_CP("Uu", 10.0, &le) : k == 2 ? CS_Total_CP(NULL, 10.0, &le) : k == 3 ? Refractive_Index_Re("H2O", -1.0, 1.0, &le)
+                    : k == 4 ? Refractive_Index_Im("Water, Liquid", 10.0, -1.0, &le) : k == 5 ? Refractive_Index_Re("H2O", 1e9, 1.0, &le) : CS_Total_CP("Water, Liquid", 10.0, &le); (void)v; } break;
+        case 'e': if (!slot[k & 1]) AtomicWeight(-1, &slot[k & 1]); break;
+        case 'c': { xrl_error *cp = xrl_error_copy(slot[0]); if (!slot[1]) slot[1] = cp; else xrl_error_free(cp); } break;
+        case 'p': if (slot[0]) { if (k == 0) { xrl_propagate_error(&slot[1], slot[0]); slot[0] = NULL; } else { xrl_propagate_error(NULL, slot[0]); slot[0] = NULL; } } break;
+        case 'x': xrl_clear_error(&slot[k & 1]); break;
+        case 'F': if (nh > 0) { hfree(&h[nh - 1]); nh--; } break;
+        case 'f': if (nh > 0) { hfree(&h[0]); for (int i = 1; i < nh; i++) h[i - 1] = h[i]; nh--; } break;
+        }
+        if (le) { fails++; if ((p != NULL)) r->flags |= F_AUX; xrl_error_free(le); }
+        else if (kind && !p && t[0] != 'C' && t[0] != 'K') r->flags |= F_AUX;        /* NULL object without error */
+        if (p && nh < 8) { h[nh].kind = kind; h[nh].p = p; nh++; } else if (p) { hnd_t x = { kind, p }; hfree(&x); }
+    }
+    r->v[0] = steps; r->v[1] = nh * 100 + fails;
+    /* release everything in the permutation selected by perm (factorial number system) */
+    int order[8], used[8] = {0}, pp = perm;
+    for (int i = 0; i < nh; i++) { int m = nh - i, q = pp % m; pp /= m; int c = -1; for (int u = 0; u < nh; u++) if (!used[u] && ++c == q) { order[i] = u; used[u] = 1; break; } }
+    for (int i = 0; i < nh; i++) hfree(&h[order[i]]);
+    xrl_clear_error(&slot[0]); xrl_clear_error(&slot[1]);
+}
+
 const op_t optab[] = {
     { "CompoundParser", op_CompoundParser }, { "add_compound_data", op_add_compound_data },
     { "NISTByName", op_NISTByName }, { "NISTByIndex", op_NISTByIndex }, { "NISTList", op_NISTList },
@@ -236,6 +305,7 @@ const op_t optab[] = {
     { "Crystal_MakeCopy", op_Crystal_MakeCopy }, { "crystal_dump", op_crystal_dump },
     { "defcrystal", op_defcrystal }, { "clearcrystals", op_clearcrystals },
     { "SymbolToAtomicNumber", op_SymbolToAtomicNumber }, { "locale", op_locale },
+    { "readfile_content", op_readfile_content }, { "hist", op_hist },
     { "deepcopy_nist", op_deepcopy_nist }, { "deepcopy_radio", op_deepcopy_radio }, { "deepcopy_crystal", op_deepcopy_crystal },
 };
 const int noptab = sizeof optab / sizeof optab[0];
